@@ -400,7 +400,7 @@ class TaggedUnionConverter(UnionConverter):
         if self.external is False:
             try:
                 # don't give 'tag' to variants
-                val = val.copy()
+                val = dict(val)  # (any mapping, not only those with a `copy` method)
                 tag = val.pop(self.tag)
             except KeyError:
                 raise ParseInterrupt()
@@ -431,7 +431,7 @@ class TaggedUnionConverter(UnionConverter):
         if self.external is False:
             try:
                 # don't give 'tag' to variants
-                val = val.copy()
+                val = dict(val)  # (any mapping, not only those with a `copy` method)
                 tag = val.pop(self.tag)
             except KeyError:
                 return WrongTypeError(f"mapping with key '{self.tag}' => {self.tag_expected()}", val)
